@@ -26,8 +26,11 @@ fn renumber(g: &G, names2: &[String]) -> G {
     }
 }
 
-pub fn case(g: &G) -> String {
-    let cfg = g.to_cfg();
+pub fn case(g: &G) -> String { case_annotated(g, 0) }
+
+/// `mask`: which non-terminal occurrences are written with the clipping annotation `^` (no influence on the language)
+pub fn case_annotated(g: &G, mask: u64) -> String {
+    let cfg = if mask == 0 { g.to_cfg() } else { g.to_cfg_annotated(mask) };
     let r = std::panic::catch_unwind(|| parol::augment_grammar(&cfg));
     match r {
         Err(_) => format!("(aug {} panic)", g.sx()),
@@ -45,7 +48,8 @@ pub fn run(a: &Args) {
         // corpus: D1 witnesses
         let names = vec![nt_name(0), nt_name(1)];
         println!("{}", case(&G { names: names.clone(), start: 0, prods: vec![(0, vec![Sy::N(1)]), (1, vec![Sy::T(5), Sy::N(0)]), (1, vec![Sy::T(5)])] }));
-        println!("{}", case(&G { names, start: 0, prods: vec![(0, vec![Sy::N(1)]), (1, vec![Sy::T(5), Sy::N(0), Sy::T(6)]), (1, vec![Sy::T(7)])] }));
+        println!("{}", case(&G { names: names.clone(), start: 0, prods: vec![(0, vec![Sy::N(1)]), (1, vec![Sy::T(5), Sy::N(0), Sy::T(6)]), (1, vec![Sy::T(7)])] }));
+        println!("{}", case_annotated(&G { names, start: 0, prods: vec![(0, vec![Sy::N(1)]), (1, vec![Sy::T(5), Sy::N(0), Sy::T(6)]), (1, vec![Sy::T(7)])] }, u64::MAX));
         // a start symbol named like its own replacement candidates
         let names = vec!["S".to_string(), "S0".to_string(), "S1".to_string()];
         println!("{}", case(&G { names, start: 0, prods: vec![(0, vec![Sy::N(1)]), (0, vec![Sy::N(2)]), (1, vec![Sy::T(5)]), (2, vec![Sy::T(6), Sy::N(0)])] }));
@@ -66,6 +70,8 @@ pub fn run(a: &Args) {
             let alt = ["S", "S0", "S1", "S2", "S10", "S3"];
             g.names = (0..n).map(|j| alt[j % alt.len()].to_string()).collect();
         }
-        println!("{}", case(&g));
+        // every third grammar with clipped non-terminal occurrences (all, or a random subset)
+        let mask = if i % 3 == 1 { if rng.chance(1, 2) { u64::MAX } else { rng.next() | 1 } } else { 0 };
+        println!("{}", case_annotated(&g, mask));
     }
 }
